@@ -115,7 +115,15 @@ func doMatchIn(expression *grammar.MatchExpression, value reflect.Value) (bool, 
 
 	switch kind := value.Kind(); kind {
 	case reflect.Map:
-		found := value.MapIndex(reflect.ValueOf(matchValue))
+		key := reflect.ValueOf(matchValue)
+		keyType := value.Type().Key()
+		if !key.Type().AssignableTo(keyType) {
+			if keyType.Kind() != reflect.String {
+				return false, fmt.Errorf("Cannot perform in/contains operations on a map with %s keys for selector: %q", keyType, expression.Selector)
+			}
+			key = key.Convert(keyType)
+		}
+		found := value.MapIndex(key)
 		return found.IsValid(), nil
 
 	case reflect.Slice, reflect.Array:
